@@ -303,18 +303,20 @@ Section Mk.
 
   (* what MkdirAll reports as created, and what it leaves of the old view *)
   Definition mk_new (cr : list (list (list N))) (X' : xview) : Prop :=
-    forall q, In q cr -> exists e, X' q = Some e /\ x_mk e = true /\ x_key e = KNew q /\
-                                   (forall t, o_utime o = Some t -> d_mtime (x_d e) = t).
+    forall q, In q cr -> exists e, X' q = Some e /\ x_mk e = true /\ x_key e = KNew q /\ mkfacts o (x_d e).
   Definition mk_old (cr : list (list (list N))) (X X' : xview) : Prop :=
     forall q e, X' q = Some e -> In q cr \/
       exists e0, X q = Some e0 /\ x_d e0 = x_d e /\ x_key e0 = x_key e /\ x_mk e0 = x_mk e.
 
   Lemma made_dir_facts p par :
-    x_mk (made_dir o p par) = true /\ x_key (made_dir o p par) = KNew p /\
-    (forall t, o_utime o = Some t -> d_mtime (x_d (made_dir o p par)) = t).
+    x_mk (made_dir o p par) = true /\ x_key (made_dir o p par) = KNew p /\ mkfacts o (x_d (made_dir o p par)).
   Proof.
-    unfold made_dir. destruct (match o_chown o with Some ug => ug | None => _ end) as [u g].
-    cbn [x_mk x_key x_d d_mtime]. split; [auto|split; [auto|]]. intros t ->. auto.
+    unfold made_dir, mkfacts. destruct (o_chown o) as [[u g]|];
+    cbn [x_mk x_key x_d d_mtime d_uid d_gid]; (split; [auto|split; [auto|split]]).
+    - intros t ->. auto.
+    - intros u' g' H. inversion H; auto.
+    - intros t ->. auto.
+    - discriminate.
   Qed.
 
   Lemma dm_made_dir fs1 T par pd i :
